@@ -423,11 +423,18 @@ MALFORMED = ["nosuchopcode a 1", "always", "always ab", "always ab 19z", "always
              "noback nofor always ab 1", "numericmodechars \\x0f00", "capsmodechars \\x0f01", "display ab 1", "display a 1-2", "math \\x0f02"]
 
 
-def gen_addition(rng, t, i, malformed=0.0, kinds=("def", "trans", "pass", "display", "extras")):
+def gen_addition(rng, t, i, malformed=0.0, kinds=("def", "trans", "pass", "display", "extras"), fat=0.0):
     """one rule for lou_compileString on a table built from the Tbl `t` (which is updated for rules that define
     characters): returns (text, kind).  `i` numbers the additions (fresh characters U+0400+i)."""
     if rng.random() < malformed:
         return rng.choice(MALFORMED), "malformed"
+    if fat and rng.random() < fat:
+        # a long rule (several hundred bytes in the image), to make the image grow
+        cs = [c for c in t.chars() if c != 0x20] or [0x61]
+        # (at most 50 characters: TranslationTableRule.charsdots is declared widechar[50] and indexing it beyond that
+        # aborts under UBSan's bounds check, finding F18; the cells are addressed through a pointer)
+        return "%salways %s %s" % (rng.choice(["", "noback ", "nofor "]), chars_str([rng.choice(cs) for _ in range(rng.randint(2, 50))]),
+                                    cells_str([rng.randint(1, 63) for _ in range(rng.randint(100, 400))])), "fat"
     kind = rng.choice(kinds)
     cells = [c for c in t.cells() if c] or [1]
     if kind in ("trans", "pass") and not [c for c in t.chars() if c != 0x20]:
